@@ -254,7 +254,7 @@ class Z3Conv:
                 for _ in range(abs(n) - 1):
                     r = r * zb
                 return r if n > 0 else 1 / r
-            if isinstance(x, sp.Rational):
+            if isinstance(x, sp.Rational) and x.q <= 4 and abs(x.p) <= 8:
                 p, q = int(x.p), int(x.q)
                 zb = c(b)
                 if q == 2:
@@ -648,7 +648,7 @@ def subst_defs(hyps, e):
     """use hypotheses of the form Eq(symbol, expr) as definitions"""
     defs = {}
     for h in hyps:
-        if isinstance(h, sp.Eq) and isinstance(h.lhs, sp.Symbol) and h.lhs not in h.rhs.free_symbols:
+        if isinstance(h, sp.Eq) and isinstance(h.lhs, sp.Symbol) and h.rhs.free_symbols and h.lhs not in h.rhs.free_symbols:
             defs[h.lhs] = h.rhs
     for _ in range(6):
         e2 = e.xreplace(defs)
